@@ -252,12 +252,12 @@ fn step_vs_run_with(mk: &dyn Fn() -> Interpreter) -> String {
 /// interp.txrun <unlocking script bytes> <locking script bytes> <input index>
 /// one-input transaction (value 1000, locking script attached), Interpreter::from_transaction(&tx, idx)
 fn do_txrun(args: &[String]) -> String {
-    let (u, l, idx) = match (arg_bytes(args, 0), arg_bytes(args, 1), arg_dec(args, 2)) {
-        (Some(u), Some(l), Some(i)) => (u, l, i as usize),
+    let (u, l, idx) = match (script_arg(args, 0), script_arg(args, 1), arg_dec(args, 2)) {
+        (Ok(u), Ok(l), Some(i)) => (u, l, i as usize),
         _ => return "BADARG".into(),
     };
-    let (us, ls) = match (Script::from_bytes(&u), Script::from_bytes(&l)) {
-        (Ok(a), Ok(b)) => (a, b),
+    let (us, ls) = match (u, l) {
+        (Some(a), Some(b)) => (a, b),
         _ => return "ERR".into(),
     };
     let mut tx = Transaction::new(1, 0);
@@ -318,6 +318,16 @@ fn hist_with(mk: &dyn Fn() -> Interpreter, k: usize) -> String {
     format!("OK:{};{};{};{};{};{};{};{};{};{};{}", ko, n, if r1 { "O" } else { "E" }, s1, if r2 { "O" } else { "E" }, s2, cflag, same, acc, disp, hastx)
 }
 
+/// a script argument of the transaction ops: a byte descriptor, or `T<tree>` (built with Script::from_script_bits,
+/// e.g. an unlocking script that ends inside an open conditional)
+fn script_arg(args: &[String], i: usize) -> Result<Option<Script>, ()> {
+    let a = args.get(i).ok_or(())?;
+    if let Some(t) = a.strip_prefix('T') {
+        return Ok(Some(Script::from_script_bits(parse_tree(t).ok_or(())?)));
+    }
+    Ok(Script::from_bytes(&expand(a).ok_or(())?).ok())
+}
+
 fn garbage_tx(us: &Script, ls: &Script) -> Transaction {
     let mut tx = Transaction::new(1, 0);
     let mut txin = TxIn::new(&[0u8; 32], 0, us, None);
@@ -344,12 +354,12 @@ fn do_hist(op: &str, args: &[String]) -> String {
             }
         }
         "interp.histtx" => {
-            let (u, l, k) = match (arg_bytes(args, 0), arg_bytes(args, 1), arg_k(args, 2)) {
-                (Some(u), Some(l), Some(k)) => (u, l, k as usize),
+            let (u, l, k) = match (script_arg(args, 0), script_arg(args, 1), arg_k(args, 2)) {
+                (Ok(u), Ok(l), Some(k)) => (u, l, k as usize),
                 _ => return "BADARG".into(),
             };
-            let (us, ls) = match (Script::from_bytes(&u), Script::from_bytes(&l)) {
-                (Ok(a), Ok(b)) => (a, b),
+            let (us, ls) = match (u, l) {
+                (Some(a), Some(b)) => (a, b),
                 _ => return "ERR".into(),
             };
             let tx = garbage_tx(&us, &ls);
